@@ -8,8 +8,18 @@ MD = "func_adl/ast/meta_data.py"
 HSH = "func_adl/ast/ast_hash.py"
 
 OS_ = "func_adl/object_stream.py"
+UA = "func_adl/util_ast.py"
+TBR = "func_adl/type_based_replacement.py"
 
 MUTANTS = {
+    "C13": [
+        {"name": "double-quote-wrap", "edits": [(UA, "        p_var = repr(p_var)\n", "        p_var = '\"' + p_var.replace('\"', '\\\\\"') + '\"'\n")]},
+        {"name": "literal-via-float", "edits": [(UA, "    return ast.Constant(value=p, kind=None)", "    return ast.Constant(value=float(p) if isinstance(p, int) and not isinstance(p, bool) and abs(p) > 2**62 else p, kind=None)")]},
+        {"name": "check-allows-none", "edits": [(UA, "g_legal_capture_types = (str, int, float, bool, complex, str, bytes, ModuleType)", "g_legal_capture_types = (str, int, float, bool, complex, str, bytes, ModuleType, type(None))")]},
+        {"name": "parquet-filename-strip", "edits": [(OS_, 'function_call("ResultParquet", [self._q_ast, as_ast(columns), as_ast(filename)])', 'function_call("ResultParquet", [self._q_ast, as_ast(columns), as_ast(filename.strip())])')]},
+        {"name": "default-float-rounded", "edits": [(TBR, "                    a = as_literal(param.default)", "                    a = as_literal(param.default if not isinstance(param.default, float) else float(str(round(param.default, 12))))")]},
+        {"name": "metadata-via-json", "edits": [(OS_, 'function_call("MetaData", [self._q_ast, as_ast(metadata)])', 'function_call("MetaData", [self._q_ast, as_ast(__import__("json").loads(__import__("json").dumps(metadata)) if all(isinstance(v, (str, int)) for v in metadata.values()) else metadata)])')]},
+    ],
     "C16": [
         {"name": "replace-not-merge", "edits": [(OS_, '                **getattr(base_ast, "_q_metadata", {}),\n', '')]},
         {"name": "always-descend", "edits": [(MD, "            if not found:\n                super().generic_visit(node)", "            super().generic_visit(node)")]},
